@@ -151,32 +151,37 @@ def eval_expect(exp, out):
                 return Fraction(v) if v not in (None, '') else Fraction(0)
             except ValueError:
                 return Fraction(0)
-        e = exp['expr']
-        kk = e[0]
-        if kk == 'add':
-            E = sum((g(x) for x in e[1]), Fraction(0))
-        elif kk == 'sub':
-            E = g(e[1]) - g(e[2])
-            if e[3]:
-                E = max(Fraction(0), E)
-        elif kk == 'sub_ceil':
-            d_ = g(e[1]) - g(e[2])
-            st_ = Fraction(e[3])
-            E = Fraction(0) if d_ <= 0 else -((-d_) // st_) * st_
-        elif kk in ('mul_rate', 'mul_const'):
-            E = Fraction(e[2]) * g(e[1])
-        elif kk == 'min':
-            E = min(g(e[1]), g(e[2]))
-        elif kk == 'max':
-            E = max(g(e[1]), g(e[2]))
-        elif kk == 'min_const':
-            st = out['solution'].get('1040.filing_status')
-            E = min(g(e[1]), Fraction(e[2]['MarriedFilingSeparately'] if st == 'MarriedFilingSeparately' else e[2]['other']))
-        elif kk == 'carry':
-            E = g(e[1])
-        elif kk == 'carry_form':
-            E = g(e[2], e[1])
-        else:
+        def ev(e):
+            kk = e[0]
+            if kk == 'add':
+                return sum((g(x) for x in e[1]), Fraction(0))
+            if kk == 'sub':
+                E = g(e[1]) - g(e[2])
+                return max(Fraction(0), E) if e[3] else E
+            if kk == 'sub_ceil':
+                d_ = g(e[1]) - g(e[2])
+                st_ = Fraction(e[3])
+                return Fraction(0) if d_ <= 0 else -((-d_) // st_) * st_
+            if kk in ('mul_rate', 'mul_const'):
+                return Fraction(e[2]) * g(e[1])
+            if kk == 'min':
+                return min(g(e[1]), g(e[2]))
+            if kk == 'max':
+                return max(g(e[1]), g(e[2]))
+            if kk == 'min_const':
+                st = out['solution'].get('1040.filing_status')
+                return min(g(e[1]), Fraction(e[2]['MarriedFilingSeparately'] if st == 'MarriedFilingSeparately' else e[2]['other']))
+            if kk == 'carry':
+                return g(e[1])
+            if kk == 'carry_form':
+                return g(e[2], e[1])
+            if kk == 'guard0':
+                # an earlier line's instruction: "if zero or less, enter 0 on lines ... through ..."
+                return Fraction(0) if g(e[1]) <= 0 else ev(e[2])
+            raise KeyError(kk)
+        try:
+            E = ev(exp['expr'])
+        except KeyError:
             return False
         got = out['solution'].get(exp['line'])
         if got in (None, ''):
